@@ -83,7 +83,6 @@ private:
 
         // Calculate inv(A - r * I) * vj
         Vector v_real(m_n), v_imag(m_n), OPv_real(m_n), OPv_imag(m_n);
-        const Scalar eps = TypeTraits<Scalar>::epsilon();
         for (Index i = 0; i < m_nev; i++)
         {
             v_real.noalias() = m_fac.matrix_V() * m_ritz_vec.col(i).real();
@@ -110,16 +109,24 @@ private:
             }
 
             const Complex lambdaj = (err1 < err2) ? root1 : root2;
-            m_ritz_val[i] = lambdaj;
 
-            if (abs(Eigen::numext::imag(lambdaj)) > eps)
+            // Real Ritz values have exact zero imaginary part, and complex ones come in
+            // exact conjugate pairs. A real nu belongs to a real eigenvalue: the imaginary
+            // part of the selected root can only come from rounding errors in the square root
+            if (Eigen::numext::imag(nu) == Scalar(0))
             {
-                m_ritz_val[i + 1] = Eigen::numext::conj(lambdaj);
-                i++;
+                m_ritz_val[i] = Complex(Eigen::numext::real(lambdaj), Scalar(0));
             }
             else
             {
-                m_ritz_val[i] = Complex(Eigen::numext::real(lambdaj), Scalar(0));
+                m_ritz_val[i] = lambdaj;
+                // If the next Ritz value is the conjugate of nu, it belongs to conj(lambda);
+                // otherwise it is an unrelated Ritz value that must be transformed on its own
+                if (i + 1 < m_nev && m_ritz_val[i + 1] == Eigen::numext::conj(nu))
+                {
+                    m_ritz_val[i + 1] = Eigen::numext::conj(lambdaj);
+                    i++;
+                }
             }
         }
 
